@@ -144,7 +144,15 @@ impl Hist {
             };
             // pools share a mint with the previous pool (two-hop needs it)
             let m1 = if pi > 0 && rnd::chance(&mut w.r, 3, 4) { w.pools[pi - 1].mint_b } else { mk(w) };
-            let m2 = mk(w);
+            // one pool in six over BOTH mints of the previous pool (another fee tier): two-hops between pools that share both mints
+            let twin = pi > 0 && rnd::chance(&mut w.r, 1, 6) && cfg.spacings.iter().any(|s| *s != w.pools[pi - 1].tick_spacing);
+            let (m1, m2, sp) = if twin {
+                let prev = w.pools[pi - 1].clone();
+                let others: Vec<u16> = cfg.spacings.iter().copied().filter(|s| *s != prev.tick_spacing).collect();
+                (prev.mint_a, prev.mint_b, *rnd::pick(&mut w.r, &others))
+            } else {
+                (m1, mk(w), sp)
+            };
             let price = match w.r.gen_range(0..10) {
                 0 => MIN_SQRT_PRICE_X64 + w.r.gen_range(0..1u128 << 20),
                 1 => MAX_SQRT_PRICE_X64 - w.r.gen_range(0..1u128 << 70),
